@@ -287,7 +287,12 @@ impl<S: ShortGroupSignatureScheme> Presentation<S> {
                 // If the claim is not disclosed and used in a statement,
                 // it must use a shared blinder, otherwise its proof specific
                 if let Statements::Signature(ss) = sig {
-                    let claim_label = ss.issuer.schema.claim_indices.get_index(index).unwrap();
+                    let claim_label = ss.issuer.schema.claim_indices.get_index(index).ok_or(
+                        Error::InvalidPresentationData(format!(
+                            "the schema of statement '{}' has no label for claim '{}'",
+                            id, index
+                        )),
+                    )?;
                     if ss.disclosed.contains(claim_label) {
                         proof_claims.push((claim.clone(), ProofMessage::Revealed(claim_value)));
                     } else if shared_proof_msg_indices[id][index] {
@@ -316,8 +321,17 @@ impl<S: ShortGroupSignatureScheme> Presentation<S> {
             for id2 in ref_ids.iter().skip(1) {
                 let ix2 = statement.get_claim_index(id2);
                 let ix1 = statement.get_claim_index(id1);
-                let map1 = proof_messages.get(id1).unwrap().clone();
-                let map2 = proof_messages.get_mut(id2).unwrap();
+                let missing = || {
+                    Error::InvalidPresentationData(format!(
+                        "statement '{}' references a claim that does not exist",
+                        statement.id()
+                    ))
+                };
+                let map1 = proof_messages.get(id1).ok_or_else(missing)?.clone();
+                let map2 = proof_messages.get_mut(id2).ok_or_else(missing)?;
+                if ix1 >= map1.len() || ix2 >= map2.len() {
+                    return Err(missing());
+                }
                 // NOTE: other unexpected combinations could be checked too,
                 // e.g., one ProofSpecificBlinding, one ExternalBlinding
                 if matches!(map1[ix1].1, ProofMessage::Revealed(_))
